@@ -5,7 +5,7 @@ HOOKS = {
     "guard": "--cfg mmtk_verif",
     "enable": "RUSTFLAGS='--cfg mmtk_verif' (set by /verif/check for cargo kani and for the native replayer); all hooks are add-only re-exports/constructors/accessors under #[cfg(mmtk_verif)]",
     "baseline_off_cmd": "cd /repo && cargo test --workspace --no-fail-fast --offline",
-    "source_commits": ["6f482cd"],
+    "source_commits": ["6f482cd", "6074715", "0599ef3"],
     "add_only": True,
 }
 
@@ -54,6 +54,18 @@ PROPS["C33"] = {
     "level_note": "Trusted: Kani/CBMC/cadical and the mask-form arithmetic oracles; VM constants limited to the three instantiations.",
 }
 
+PROPS["C32"] = {
+    "enc": ["SpaceDescriptor::create_descriptor_from_heap_range", "get_start", "get_start_32", "get_extent", "get_extent_32", "is_contiguous",
+            "is_contiguous_hi", "is_empty", "get_index", "create_descriptor", "vm_layout (layout installed by the verif_set_vm_layout hook, validated by VMLayout::validate)"],
+    "sym": "32-bit encoding: heap_start < heap_end <= 2^32 chunk-aligned, start chunk-aligned in (0, 2^32), chunks 1..=1023, a second independent range for injectivity; "
+           "64-bit encoding: space index 1..=16, chunk count up to the space extent; three successive discontiguous descriptors",
+    "bound": "All (start, chunk count) pairs the 32-bit encoding admits (mantissa loop <= 14 iterations, unwind 16 with unwinding assertion); default 64-bit layout for the contiguous encoding; 3 create_descriptor calls from the initial counter.",
+    "outside": "start >= 2^32 in the 32-bit encoding (the FIXME in the source says the encoding does not cover it); discontiguous counter values beyond the first three",
+    "assumptions": COMMON_ASSUME + ["layout satisfies VMLayout::validate", "start non-zero and chunk aligned, 0 < chunks < 1024 (the function's debug assertion)"],
+    "level_text": "Bounded symbolic execution (Kani/CBMC) of the real SpaceDescriptor encode/decode functions over every chunk-aligned (start, chunk count) the 32-bit encoding admits, with symbolic heap bounds: start, extent, contiguity and top-of-heap flag round-trip, and distinct ranges get distinct descriptors; 64-bit contiguous encoding over all 16 space indices; discontiguous descriptors distinct and non-contiguous.",
+    "level_note": "Trusted: Kani/CBMC/cadical; the verif_set_vm_layout hook installs the layout (validated by the real validate()).",
+}
+
 NOT_APPLICABLE = {}
 _L = ("observable only on a live collector (MMTK instance, mmap'd heap, OS worker threads, VM call-backs); Kani has no thread/FFI model and a "
       "whole collection is outside any unwinding bound; the bit-level kernels are decided under ")
@@ -78,5 +90,5 @@ NOT_APPLICABLE.update({
     "C39": "DESIGN P11: 3 symbolic bytes through to_lowercase/parse/format! exceed 420 s; GCTriggerSelector::from_str compiles two regex::Regex",
 })
 # Claimed in DESIGN.md but not built yet: listed as not applicable until their check exists.
-for _p in ["C08", "C10", "C17", "C18", "C20", "C21", "C22", "C24", "C25", "C26", "C27", "C28", "C29", "C31", "C32", "C34", "C35", "C37", "C38", "C40"]:
+for _p in ["C08", "C10", "C17", "C18", "C20", "C21", "C22", "C24", "C25", "C26", "C27", "C28", "C29", "C31", "C34", "C35", "C37", "C38", "C40"]:
     NOT_APPLICABLE.setdefault(_p, "check planned in DESIGN.md section 3 but not built yet; not claimed until its harnesses are registered")
